@@ -82,7 +82,9 @@ BRANCHES = (['t:' + k for k in KINDS] + ['rank:' + m for m in RANK_METHODS] +
 ASSUMPTIONS = [
     'IEEE evaluation of either side is within the stated tolerance of the real value (inputs are '
     'integers / dyadics times powers of two over ~24 decades of scale, offsets up to 2^40, n <= 6; '
-    'cosine- / correlation-type cases avoid huge common offsets, geotop avoids thresholds inside a near-tie cluster)',
+    'cosine- / correlation-type cases avoid huge common offsets and near-tie clusters (mean removal would be '
+    'rounding-dominated) and their tolerance grows as 64*eps*kappa^2 with the a-priori conditioning '
+    'kappa = max|x|/spread(x) of the exact inputs; geotop avoids thresholds inside a near-tie cluster)',
     'np.quantile (linear interpolation) is modelled by `quantileLin` on exact rationals and agrees '
     'within 1e-9 on every geotop case; the clipped linear map is continuous in the thresholds',
     'networkx.floyd_warshall_numpy returns shortest-path lengths (inf when unreachable); the model '
@@ -476,7 +478,9 @@ def _inv_case(rng, method, nmax):
     if method in RANK_BASED:
         wide = WIDE_STYLES                      # order is all that matters: any scale, any offset
     else:
-        wide = ['tiny', 'huge', 'near_tie']     # a huge common offset makes centring ill-conditioned
+        # centring / normalising is rounding-dominated when max|x| / spread(x) is large: no common
+        # offsets and no near-tie clusters for the cosine- and correlation-type measures
+        wide = ['tiny', 'huge']
     sx = rng.choice(wide) if rng.random() < 0.5 else rng.choice(plain_x)
     sy = rng.choice(wide) if rng.random() < 0.3 else rng.choice(plain_y)
     x = _stack(rng, m, nx, sx)
@@ -718,10 +722,35 @@ def model_result(case, answers):
 
 # ------------------------------------------------------------------ comparison
 
+def conditioning(case):
+    """a-priori condition number of mean removal, from the exact inputs: the largest
+    max|v| / (max v - min v) over the non-constant RDMs that are centred (original and, where the map is
+    exact, mapped); 1 for the measures that do not centre"""
+    if case['method'] not in ('corr', 'corr_cov', 'cosine_cov'):
+        return 1.0
+    kappa = 1.0
+    for mp, stack in ((case['fx'], case['x']), (case['fy'], case['y'])):
+        stacks = [_drop(stack, case['nanpos'])]
+        if mp is not None:
+            ex = mapped_exact(mp, stacks[0])
+            if ex is not None:
+                stacks.append(ex)
+        for st in stacks:
+            for row in st:
+                vals = [unrat(v) for v in row]
+                spread = max(vals) - min(vals)
+                if spread > 0:
+                    kappa = max(kappa, float(max(abs(v) for v in vals) / spread))
+    return kappa
+
+
 def inv_tolerance(case):
-    if case['method'] in ('cosine_cov', 'corr_cov') and case['sigma'] is not None:
-        return 5e-4, 5e-4
-    return 1e-9, 1e-10
+    """1e-9 (5e-4 behind scipy's CG) unless the centred computation is ill-conditioned: the rounding
+    of x - mean(x) is amplified by kappa, twice near |r| = 1 -> 64 * eps * kappa**2, capped"""
+    rtol, atol = (5e-4, 5e-4) if case['method'] in ('cosine_cov', 'corr_cov') and \
+        case['sigma'] is not None else (1e-9, 1e-10)
+    bound = min(1e-3, 64 * 2.220446049250313e-16 * conditioning(case) ** 2)
+    return max(rtol, bound), max(atol, bound)
 
 
 def _diff_sim(a, b, rtol, atol, undefined_ok=False):
